@@ -8,19 +8,18 @@ import (
 )
 
 type ReplayResult struct {
-	Confirmed bool   `json:"confirmed"`
-	Outcome   string `json:"outcome"`
-	Test      string `json:"test,omitempty"`
-	Output    string `json:"output,omitempty"`
+	Confirmed bool     `json:"confirmed"`
+	Outcome   string   `json:"outcome"`
+	Inputs    []string `json:"inputs,omitempty"`
+	Cmd       string   `json:"replay_cmd,omitempty"`
+	Test      string   `json:"test,omitempty"`
+	Output    string   `json:"output,omitempty"`
 }
 
 func (E *Engine) extraChecks(cfg *PropConfig) {}
 
 func (E *Engine) globalFacts(x *Exec, fn *ssa.Function, fc *FuncContract) []*Term { return nil }
 
-func (E *Engine) tryReplay(o *Oblig, q *Query, model map[string]string, dir string) *ReplayResult {
-	return nil
-}
 
 // VerifyLemmas proves every lemma that was used (all of them in thorough tier)
 // as its own obligation; a lemma is only available as a hypothesis because it
